@@ -447,6 +447,10 @@ pub mod verif {
         pub fn has_scheduled(&self) -> bool {
             self.set.has_scheduled()
         }
+        /// `discard_scheduled()`.
+        pub fn discard(&self) {
+            self.set.discard_scheduled()
+        }
         /// Number of notifications the parent waker has received.
         pub fn notifications(&self) -> usize {
             self.counter.0.load(Ordering::SeqCst)
